@@ -181,7 +181,8 @@ def purity(rep, prog):
         n += 1
         sm = eff.summ[q]
         muts = {p: s for p, s in sm.mut.items() if p != 'self'}
-        if getattr(f.node, 'name', '').startswith('_') and not getattr(f.node, 'name', '').startswith('__'):
+        private_cls = f.cls is not None and getattr(f.cls, 'name', '').startswith('_') and not getattr(f.cls, 'name', '').startswith('__')
+        if (getattr(f.node, 'name', '').startswith('_') and not getattr(f.node, 'name', '').startswith('__')) or private_cls:
             rep.ob('R17.pure', q, True, 'private helper (its effects are accounted for in the summaries of its public callers)', f.site); continue
         if muts:
             for p, s in sorted(muts.items()):
